@@ -184,10 +184,11 @@ def _query(eio, tr, sid, j):
 def _admission(fl, ci, mi, ei, ti, ski, ui, ji):
     method, eio, tr, sk, up, j, cfg = METHODS[mi], EIOS[ei], TRANSPORTS[ti], SIDKINDS[ski], UPHDRS[ui], JS[ji], CFGS[ci]
     r400, r405, unconstrained = _reasons(method, eio, tr, sk, up, j, cfg)
-    if not r400 and not r405:
-        return ''          # admission itself ("only if") is one-directional: admitted requests are covered elsewhere
     if unconstrained:
         return ''
+    # requests the table does not require to be refused: admission itself ("only if") is one-directional, but IF the server
+    # answers such a request with a refusal (400 / 405 / websocket rejected), "a refused request has no effect at all" applies
+    must = bool(r400) or r405
     # baseline: same state, no request
     base = _build(fl, cfg, sk)
     if base is None:
@@ -213,12 +214,25 @@ def _admission(fl, ci, mi, ei, ti, ski, ui, ji):
         r = sut.request(method, _query(eio, tr, st['sid'], j), dict(up) if up else None, body=body, ws=ws)
         sut.settle()
         desc = '%s ?%s hdr=%r' % (method, _query(eio, tr, st['sid'], j), up)
+        if not must:
+            if not r.done or r.exc is not None:
+                return ''
+            if ws is not None and fl == 1:
+                if not ((ws.rejected is not None) or (not ws.accepted and ws.closed_by_server)):
+                    return ''
+            elif ws is not None and ws.accepted:
+                return ''
+            elif sut.status(r) not in (400, 405):
+                return ''
+            state['refused_by_choice'] = True
         if not r.done:
             return fail(PROP, 'REFUSED-REQUEST-HANGS', '%s did not complete (blocked in %s)' % (desc, r.task.what), **state)
         if r.exc is not None:
             return fail(PROP, 'REFUSED-REQUEST-RAISES', '%s: %s escaped handle_request (reasons %r)' % (
                 desc, type(r.exc).__name__, r400 or ['method']), **state)
-        if ws is not None and fl == 1:
+        if not must:
+            pass
+        elif ws is not None and fl == 1:
             refused = (ws.rejected is not None) or (not ws.accepted and ws.closed_by_server)
             if not refused:
                 return fail(PROP, 'NOT-REFUSED', '%s (reasons %r) was not refused on the websocket scope: events %r' % (
